@@ -61,7 +61,8 @@ def payload_bytes(file_id: int, seg: int, n: int) -> bytes:
 
 def make_fragment(seq, track_id, decode_time, sample_durs, sample_sizes, payload, *, file_offset,
                   tfdt='v1', base='moof', styp=False, sidx=False, timescale=1000,
-                  encrypted=False, iv_size=8, subsamples=False, emsg=None, per_sample_saiz=False):
+                  encrypted=False, iv_size=8, subsamples=False, emsg=None, per_sample_saiz=False,
+                  moof_pssh=None):
     """-> bytes of [styp][sidx][emsg] moof mdat, laid out for absolute position file_offset."""
     pre = b''
     if styp:
@@ -117,7 +118,8 @@ def make_fragment(seq, track_id, decode_time, sample_durs, sample_sizes, payload
             parts += senc
         parts += tr
         traf = box(b'traf', parts)
-        moof = box(b'moof', mfhd + traf)
+        # a version 1 pssh after the traf names further key ids of the track (key rotation style signalling)
+        moof = box(b'moof', mfhd + traf + (moof_pssh or b''))
         return moof, senc_pos_in_traf
 
     moof, senc_pos = build(0, 0, 0)
@@ -143,7 +145,11 @@ def make_fragment(seq, track_id, decode_time, sample_durs, sample_sizes, payload
 def make_file(*, kind='video', timescale=1000, durations=(2000, 3000, 2500, 1500, 4000), start_time=0,
               tfdt='v1', styp=False, sidx=False, base='moof', samples_per_seg=2, encrypted=False, iv_size=8,
               subsamples=False, file_id=1, track_id=1, start_number=1, sample_size=40,
-              per_sample_saiz=False) -> bytes:
+              per_sample_saiz=False, extra_kids=()) -> bytes:
+    moof_pssh = None
+    if extra_kids:
+        moof_pssh = fullbox(b'pssh', 1, 0, COMMON_SYSTEM_ID + struct.pack('>I', len(extra_kids)) +
+                            b''.join(extra_kids) + struct.pack('>I', 0))
     init = patched_init(kind, encrypted, timescale, track_id, iv_size)
     out = bytearray(init)
     t = start_time
@@ -156,11 +162,14 @@ def make_file(*, kind='video', timescale=1000, durations=(2000, 3000, 2500, 1500
         frag = make_fragment(start_number + i, track_id, t, durs, sizes, payload, file_offset=len(out),
                              tfdt=tfdt, base=base, styp=styp, sidx=sidx, timescale=timescale,
                              encrypted=encrypted, iv_size=iv_size, subsamples=subsamples,
-                             per_sample_saiz=per_sample_saiz)
+                             per_sample_saiz=per_sample_saiz, moof_pssh=moof_pssh if i == 0 else None)
         out += frag
         t += d
     return bytes(out)
 
+
+COMMON_SYSTEM_ID = bytes.fromhex('1077efecc0b24d02ace33c1e52e2fb4b')
+SECOND_KID = bytes.fromhex('0102030405060708090a0b0c0d0e0f10')
 
 # The catalogue of synthetic streams used by the checks (name -> {file name: recipe})
 RECIPES = {
@@ -204,6 +213,13 @@ RECIPES = {
         'synenc_a1': dict(kind='audio', timescale=48000, track_id=2, durations=(96000, 144000, 96000), file_id=8),
         'synenc_a1_enc': dict(kind='audio', timescale=48000, track_id=2, durations=(96000, 144000, 96000),
                               file_id=8, encrypted=True, iv_size=8, subsamples=False),
+    },
+    # a track with two key ids: the tenc default and a second one named by a pssh box in the first fragment
+    'synmk': {
+        'synmk_v1': dict(kind='video', timescale=1000, durations=(2000, 2000, 2000), file_id=13),
+        'synmk_v1_enc': dict(kind='video', timescale=1000, durations=(2000, 2000, 2000), file_id=13,
+                             encrypted=True, iv_size=8, extra_kids=(SECOND_KID,)),
+        'synmk_a1': dict(kind='audio', timescale=48000, track_id=2, durations=(96000, 96000, 96000), file_id=14),
     },
 }
 
